@@ -1,6 +1,6 @@
 // property=C07 group=supervisor harness=c07_ticket_other_first_job_gone_a
 // check: C07: a task awaiting a ticket was never woken when it resolved
-// at src/c07.rs:111 in c07::ticket_scenario
+// at src/c07.rs:161 in c07::ticket_scenario
 // replay: ./check C07 --replay replays/C07/c07_ticket_other_first_job_gone_a.91e09fec79.rs
 #[test]
 fn kani_concrete_playback_c07_ticket_other_first_job_gone_a_17689280309193444268() {
